@@ -16,6 +16,7 @@ type Test struct {
 	Code string `json:"code"`
 	Path string `json:"path"`
 	User bool   `json:"user"`
+	Msg  string `json:"msg"` // custom message passed to this very test ("" = none)
 }
 
 type Kid struct {
@@ -25,14 +26,15 @@ type Kid struct {
 }
 
 type Node struct {
-	K     string   `json:"k"`  // prim struct slice ptr custom
-	Ty    string   `json:"ty"` // int str bool float time none
-	Req   bool     `json:"req"`
-	Def   int      `json:"def"`
-	Catch int      `json:"catch"`
-	Tests []Test   `json:"tests"`
-	Pts   []string `json:"pts"`
-	Kids  []Kid    `json:"kids"`
+	K      string   `json:"k"`  // prim struct slice ptr custom
+	Ty     string   `json:"ty"` // int str bool float time none
+	Req    bool     `json:"req"`
+	Def    int      `json:"def"`
+	Catch  int      `json:"catch"`
+	Tests  []Test   `json:"tests"`
+	Pts    []string `json:"pts"`
+	Kids   []Kid    `json:"kids"`
+	ReqMsg string   `json:"reqmsg"` // custom message passed to Required(...)
 }
 
 type Ent struct {
@@ -48,12 +50,24 @@ type Input struct {
 }
 
 type Case struct {
-	ID     string `json:"id"`
-	Mode   string `json:"mode"` // parse validate
-	Fe     string `json:"fe"`   // map json form query env
-	Pre    int    `json:"pre"`  // 1: the Parse destination's pointers are pre-allocated (pointees hold sentinels)
-	Schema *Node  `json:"schema"`
-	Input  *Input `json:"input"`
+	ID     string    `json:"id"`
+	Mode   string    `json:"mode"` // parse validate
+	Fe     string    `json:"fe"`   // map json form query env
+	Pre    int       `json:"pre"`  // 1: the Parse destination's pointers are pre-allocated (pointees hold sentinels)
+	Schema *Node     `json:"schema"`
+	Input  *Input    `json:"input"`
+	Chain  []ChainOp `json:"chain,omitempty"` // C17: the root schema is built by executing these builder calls
+	shared bool      // C17: identical *Node pointers are built once and the schema object reused
+}
+
+// one builder call of a chain (spec/ZogChain.tla)
+type ChainOp struct {
+	Op   string `json:"op"`
+	Kind string `json:"kind"`
+	N    int    `json:"n"`
+	Code string `json:"code"`
+	Path string `json:"path"`
+	Msg  string `json:"msg"`
 }
 
 const (
